@@ -99,6 +99,7 @@ def tasks(tier, seed):
         else:
             # unequal gammas around each pattern root (ideal-gas solver only: 4 ms per call): the K=1 roots around Sod reach unequal
             # gammas only in the rarefaction-contact-shock pattern (seeded change S2-C09-1: a left/right slip in the two-shock branch)
+            roots += [{"problem_name": n} for n in hm.BND_TABLE if "|ul0|" in n + "|"]      # states straddling the classification boundaries
             for n in ("collision_equal_states", "recession_equal_states", "moving_scr", "recession_unequal_states"):
                 for k_, v_ in (("gl", 5.0 / 3.0), ("gr", 5.0 / 3.0), ("gl", 2.0)):
                     roots.append({"problem_name": n, "extra": {k_: v_}})
